@@ -100,9 +100,40 @@ def make_inputs(tier, seed, wd):
                                 inputs.append(dict(path=p2, data=new, doc=d2, version=inputs[-1]['version'], kind='valid', nblocks=len(d2.blocks), reencoded=True))
                         except (cbor.CborError, cdns_schema.SchemaError):
                             pass
+                    # another producer's file with records that carry no (known) member: `{}` and `{<unknown key>: ...}` items are valid
+                    # (every member of a Query/Response and of a Malformed message is optional) and count as items
+                    if rr.random() < 0.35:
+                        try:
+                            new3 = with_fieldless_items(rr, o.data)
+                            d3 = cdns_schema.parse(new3)
+                            if sum(b['counts'][3] for b in d3.blocks) > sum(b['counts'][3] for b in d.blocks):
+                                p3 = os.path.join(wd, pc['case']['id'] + '_fl.cdns')
+                                with open(p3, 'wb') as f:
+                                    f.write(new3)
+                                inputs.append(dict(path=p3, data=new3, doc=d3, version=inputs[-1]['version'], kind='valid', nblocks=len(d3.blocks), reencoded=True, fieldless=True))
+                        except (cbor.CborError, cdns_schema.SchemaError):
+                            pass
     finally:
         er.close()
     return inputs, er.violations
+
+
+def with_fieldless_items(r, data):
+    doc = cdns_schema.parse(data)
+    for n in cbor.walk(doc.root):
+        if n.major == cbor.MAP and n.ann == 'Block':
+            have = {k.value for k, v in n.value}
+            for k, v in n.value:
+                if k.value in (3, 5) and v.major == cbor.ARRAY and r.random() < 0.8:
+                    for _ in range(r.choice([1, 1, 2])):
+                        item = cbor.Node(cbor.MAP, []) if r.random() < 0.6 else cbor.Node(cbor.MAP, [(cbor.Node(cbor.UINT, r.choice([40, 99, 1000])), cbor.Node(cbor.UINT, 7))])
+                        v.value.insert(r.randrange(len(v.value) + 1), item)
+                    v.width = None
+            for key in (3, 5):
+                if key not in have and r.random() < 0.3:
+                    n.value.append((cbor.Node(cbor.UINT, key), cbor.Node(cbor.ARRAY, [cbor.Node(cbor.MAP, [])])))
+                    n.width = None
+    return cbor.encode(doc.root)
 
 
 def reencode(r, data):
